@@ -21,39 +21,47 @@ fn stub_eval(_b: &[u8], _v: u8) -> script::EvaluatedScript {
     script::EvaluatedScript::new(None, script::ScriptPattern::NotRecognised)
 }
 
-//@ id=C03 tier=quick name=c03_blk_name timeout=900 role=blk_name bound=blk+1..6-ASCII-bytes+.dat fn=BlkFile::parse_blk_index
-#[kani::proof]
-#[kani::unwind(24)]
-fn c03_blk_name() {
-    let d: [u8; 6] = kani::any();
-    let n: usize = kani::any();
-    kani::assume(n >= 1 && n <= 6);
-    let mut name = [0u8; 13];
-    name[0] = b'b'; name[1] = b'l'; name[2] = b'k';
-    let mut i = 0;
-    while i < n { kani::assume(d[i] < 0x80); name[3 + i] = d[i]; i += 1; }
-    name[3 + n] = b'.'; name[4 + n] = b'd'; name[5 + n] = b'a'; name[6 + n] = b't';
-    let s = match core::str::from_utf8(&name[..7 + n]) { Ok(s) => s, Err(_) => { kani::assume(false); return; } };
-    let got = BlkFile::parse_blk_index(s, "blk", ".dat");
-    // reference: Some(decimal value) iff every byte is an ASCII digit (a leading '+' is what
-    // u64::from_str also accepts; excluded from the claim by assumption)
-    kani::assume(d[0] != b'+');
-    let mut all = true;
-    let mut val: u64 = 0;
-    let mut i = 0;
-    while i < n {
-        if d[i] >= b'0' && d[i] <= b'9' { val = val * 10 + (d[i] - b'0') as u64; } else { all = false; }
-        i += 1;
-    }
-    kani::cover!(all && n == 5 && d[0] == b'0' && val == 42, "zero padded blk00042.dat");
-    kani::cover!(all && n == 1, "unpadded single digit");
-    kani::cover!(!all && n == 5, "non-numeric, e.g. blkindex.dat-like");
-    if all {
-        assert!(got == Some(val), "C03:blk_file_number_is_decimal_value_regardless_of_padding");
-    } else {
-        assert!(got.is_none(), "C03:non_numeric_name_is_not_a_blk_file");
-    }
+macro_rules! blk_name {
+    ($name:ident, $n:expr) => {
+        #[kani::proof]
+        #[kani::unwind(24)]
+        fn $name() {
+            const N: usize = $n;
+            let d: [u8; N] = kani::any();
+            let mut name = [0u8; 7 + N];
+            name[0] = b'b'; name[1] = b'l'; name[2] = b'k';
+            let mut i = 0;
+            while i < N { kani::assume(d[i] < 0x80); name[3 + i] = d[i]; i += 1; }
+            name[3 + N] = b'.'; name[4 + N] = b'd'; name[5 + N] = b'a'; name[6 + N] = b't';
+            // ASCII by assumption, hence valid UTF-8
+            let s = unsafe { core::str::from_utf8_unchecked(&name[..]) };
+            let got = BlkFile::parse_blk_index(s, "blk", ".dat");
+            // reference: Some(decimal value) iff every byte is an ASCII digit (a leading '+', which
+            // u64::from_str also accepts, is excluded from the claim by assumption)
+            kani::assume(d[0] != b'+');
+            let mut all = true;
+            let mut val: u64 = 0;
+            let mut i = 0;
+            while i < N {
+                if d[i] >= b'0' && d[i] <= b'9' { val = val * 10 + (d[i] - b'0') as u64; } else { all = false; }
+                i += 1;
+            }
+            kani::cover!(all && d[0] == b'0', "zero padded number");
+            kani::cover!(!all, "non-numeric name");
+            if all {
+                assert!(got == Some(val), "C03:blk_file_number_is_decimal_value_regardless_of_padding");
+            } else {
+                assert!(got.is_none(), "C03:non_numeric_name_is_not_a_blk_file");
+            }
+        }
+    };
 }
+//@ id=C03 tier=quick name=c03_blk_name_1 timeout=900 role=blk_name bound=blk+1-ASCII-byte+.dat fn=BlkFile::parse_blk_index
+blk_name!(c03_blk_name_1, 1);
+//@ id=C03 tier=quick name=c03_blk_name_5 timeout=1500 role=blk_name bound=blk+5-ASCII-bytes+.dat(Core's-blkNNNNN.dat)
+blk_name!(c03_blk_name_5, 5);
+//@ id=C03 tier=thorough name=c03_blk_name_3 timeout=1500 role=blk_name bound=blk+3-ASCII-bytes+.dat
+blk_name!(c03_blk_name_3, 3);
 
 //@ id=C03 tier=quick name=c03_blk_name_other timeout=600 role=blk_name bound=foreign-prefixes-and-extensions fn=BlkFile::parse_blk_index
 #[kani::proof]
@@ -67,64 +75,66 @@ fn c03_blk_name_other() {
     kani::cover!(true, "evaluated");
 }
 
-// read_at: ghost file of 200 bytes; two reads of an 81-byte block (80-byte header + tx count 0)
-// at symbolic offsets; buffer capacity is the production 32 KiB (whole file buffered) - the
-// small-capacity interplay is C11's xor_window claim.
-//@ id=C03,C11 tier=quick name=c03_read_at timeout=1800 role=read_at bound=ghost-file-200B,two-reads-at-symbolic-offsets,xor-key-2 mem=20 fn=BlkFile::read_block,BlkFile::open,XorReader::read,XorReader::seek,read_block,read_block_header
-#[kani::proof]
-#[kani::unwind(204)]
-#[kani::stub(crate::blockchain::proto::script::eval_from_bytes, stub_eval)]
-#[kani::stub(<bitcoin::hashes::sha256::HashEngine as bitcoin::hashes::HashEngine>::input, ghost::stub_engine_input)]
-#[kani::stub(<bitcoin::hashes::sha256d::Hash as bitcoin::hashes::Hash>::from_engine, ghost::stub_sha256d_fin)]
-fn c03_read_at() {
-    ghost::init(kani::any());
-    let key: [u8; 2] = kani::any();
-    const FL: usize = 200;
-    // plaintext content is symbolic; the ghost file holds it XOR-ed with the key
-    let plain: [u8; FL] = kani::any();
-    unsafe {
-        let mut i = 0;
-        while i < FL { gfs::DATA[3][i] = plain[i] ^ key[i % 2]; i += 1; }
-        gfs::LEN[3] = FL;
-    }
-    let coin = CoinType { name: String::new(), magic: 0, version_id: 0x00, genesis_hash: bitcoin::hashes::sha256d::Hash::from_byte_array([0; 32]), aux_pow_activation_version: None, default_folder: PathBuf::new() };
-    let mut bf = BlkFile::new(PathBuf::from("3"), Some(key.to_vec()));
-    let o1: u64 = kani::any();
-    let o2: u64 = kani::any();
-    kani::assume(o1 >= 4 && o1 as usize + 81 <= FL);
-    kani::assume(o2 >= 4 && o2 as usize + 81 <= FL);
-    // both blocks declare zero transactions
-    kani::assume(plain[o1 as usize + 80] == 0 && plain[o2 as usize + 80] == 0);
-    let offs = [o1, o2];
-    let mut r = 0;
-    while r < 2 {
-        let o = offs[r] as usize;
-        match bf.read_block(offs[r], &coin) {
-            Ok(b) => {
-                let want_size = u32::from_le_bytes([plain[o - 4], plain[o - 3], plain[o - 2], plain[o - 1]]);
-                assert!(b.size == want_size, "C03:size_is_le_u32_before_the_offset");
-                assert!(b.header.value.version == u32::from_le_bytes([plain[o], plain[o + 1], plain[o + 2], plain[o + 3]]), "C03:header_read_at_offset");
-                assert!(b.header.value.nonce == u32::from_le_bytes([plain[o + 76], plain[o + 77], plain[o + 78], plain[o + 79]]), "C03:header_end_read_at_offset");
-                let ph = b.header.value.prev_hash.to_byte_array();
+// read_at: ghost file of 200 symbolic bytes, XOR-ed with a symbolic 2-byte key; two reads of an 81-byte
+// block (80-byte header + tx count 0) on ONE BlkFile at offsets that are concrete per instance
+// (symbolic offsets into the 200-byte file did not finish in 30 min; offset-generic seek/read logic with
+// symbolic positions is the C11 xor_window claim on small buffers). Buffer capacity = production 32 KiB.
+macro_rules! read_at {
+    ($name:ident, $o1:expr, $o2:expr) => {
+        #[kani::proof]
+        #[kani::unwind(204)]
+        #[kani::stub(crate::blockchain::proto::script::eval_from_bytes, stub_eval)]
+        #[kani::stub(<bitcoin::hashes::sha256::HashEngine as bitcoin::hashes::HashEngine>::input, ghost::stub_engine_input)]
+        #[kani::stub(<bitcoin::hashes::sha256d::Hash as bitcoin::hashes::Hash>::from_engine, ghost::stub_sha256d_fin)]
+        fn $name() {
+            ghost::init(kani::any());
+            let key: [u8; 2] = kani::any();
+            const FL: usize = 200;
+            let mut plain: [u8; FL] = kani::any();
+            plain[$o1 + 80] = 0; // both blocks declare zero transactions
+            plain[$o2 + 80] = 0;
+            unsafe {
                 let mut i = 0;
-                while i < 32 { assert!(ph[i] == plain[o + 4 + i], "C03:header_prev_read_at_offset"); i += 1; }
-                assert!(b.txs.len() == 0 && b.tx_count.value == 0, "C03:tx_count_read_behind_header");
-                core::mem::forget(b);
+                while i < FL { gfs::DATA.v[3][i] = plain[i] ^ key[i % 2]; i += 1; }
+                gfs::LEN.v[3] = FL;
             }
-            Err(e) => { core::mem::forget(e); assert!(false, "C03:read_block_ok"); return; }
+            let coin = CoinType { name: String::new(), magic: 0, version_id: 0x00, genesis_hash: bitcoin::hashes::sha256d::Hash::from_byte_array([0; 32]), aux_pow_activation_version: None, default_folder: PathBuf::new() };
+            let mut bf = BlkFile::new(PathBuf::from("3"), Some(key.to_vec()));
+            let offs: [usize; 2] = [$o1, $o2];
+            let mut r = 0;
+            while r < 2 {
+                let o = offs[r];
+                match bf.read_block(o as u64, &coin) {
+                    Ok(b) => {
+                        let want_size = u32::from_le_bytes([plain[o - 4], plain[o - 3], plain[o - 2], plain[o - 1]]);
+                        assert!(b.size == want_size, "C03:size_is_le_u32_before_the_offset");
+                        assert!(b.header.value.version == u32::from_le_bytes([plain[o], plain[o + 1], plain[o + 2], plain[o + 3]]), "C03:header_read_at_offset");
+                        assert!(b.header.value.nonce == u32::from_le_bytes([plain[o + 76], plain[o + 77], plain[o + 78], plain[o + 79]]), "C03:header_end_read_at_offset");
+                        let ph = b.header.value.prev_hash.to_byte_array();
+                        let mut i = 0;
+                        while i < 32 { assert!(ph[i] == plain[o + 4 + i], "C03:header_prev_read_at_offset"); i += 1; }
+                        assert!(b.txs.len() == 0 && b.tx_count.value == 0, "C03:tx_count_read_behind_header");
+                        core::mem::forget(b);
+                    }
+                    Err(e) => { core::mem::forget(e); assert!(false, "C03:read_block_ok"); return; }
+                }
+                r += 1;
+            }
+            kani::cover!(key[0] != 0 && key[1] == 0, "key with a zero byte");
+            unsafe { assert!(gfs::OPENS.v[3] == 1, "C17:file_opened_once_while_open"); }
+            core::mem::forget(bf);
         }
-        r += 1;
-    }
-    kani::cover!(o2 < o1, "backward seek");
-    kani::cover!(o2 > o1 + 81, "forward seek over a gap");
-    kani::cover!(o2 == o1, "same block twice");
-    kani::cover!(o1 % 2 == 1, "odd offset (key phase)");
-    unsafe { assert!(gfs::OPENS[3] == 1, "C17:file_opened_once_while_open"); }
-    core::mem::forget(bf);
+    };
 }
+//@ id=C03,C11 tier=quick name=c03_read_at_fwd timeout=1800 role=read_at bound=ghost-file-200B,xor-key-2,reads-at-offsets-5-then-110(forward-over-a-gap,odd-offset) mem=20 fn=BlkFile::read_block,BlkFile::open,XorReader::read,XorReader::seek,read_block,read_block_header
+read_at!(c03_read_at_fwd, 5, 110);
+//@ id=C03,C11 tier=quick name=c03_read_at_back timeout=1800 role=read_at bound=reads-at-offsets-100-then-8(backward-seek) mem=20
+read_at!(c03_read_at_back, 100, 8);
+//@ id=C03,C11 tier=thorough name=c03_read_at_same timeout=1800 role=read_at bound=same-offset-twice mem=20
+read_at!(c03_read_at_same, 50, 50);
 
 // truncated file: the file ends at a symbolic byte inside [offset-4, offset+81): Err, no panic
-//@ id=C10,C14 tier=quick name=c10_read_truncated timeout=1800 role=read_fault bound=ghost-file-truncated-at-any-byte-of-an-81-byte-block mem=20 fn=BlkFile::read_block,read_block,read_block_header
+//@ id=C10,C14 tier=quick name=c10_read_truncated timeout=1800 role=read_fault bound=ghost-file(<=120B)-truncated-at-any-length,block-at-offset-20 mem=20 fn=BlkFile::read_block,read_block,read_block_header
 #[kani::proof]
 #[kani::unwind(204)]
 #[kani::stub(crate::blockchain::proto::script::eval_from_bytes, stub_eval)]
@@ -138,18 +148,17 @@ fn c10_read_truncated() {
     kani::assume(flen <= FL);
     unsafe {
         let mut i = 0;
-        while i < FL { gfs::DATA[2][i] = plain[i]; i += 1; }
-        gfs::LEN[2] = flen;
+        while i < FL { gfs::DATA.v[2][i] = plain[i]; i += 1; }
+        gfs::LEN.v[2] = flen;
     }
     let coin = CoinType { name: String::new(), magic: 0, version_id: 0x00, genesis_hash: bitcoin::hashes::sha256d::Hash::from_byte_array([0; 32]), aux_pow_activation_version: None, default_folder: PathBuf::new() };
     let mut bf = BlkFile::new(PathBuf::from("2"), None);
-    let o: u64 = kani::any();
-    kani::assume(o >= 4 && o <= 130);
-    kani::assume((o as usize) + 80 >= FL || plain[o as usize + 80] == 0);
+    let o: u64 = 20;
+    kani::assume(plain[o as usize + 80] == 0);
     let complete = (o as usize) + 81 <= flen;
     kani::cover!(!complete && flen == 0, "file emptied");
     kani::cover!(!complete && flen > o as usize + 10, "truncated inside the header");
-    kani::cover!(!complete && o as usize > flen, "offset past end of file");
+    kani::cover!(!complete && flen < 16, "offset past end of file");
     kani::cover!(complete, "complete block");
     match bf.read_block(o, &coin) {
         Ok(b) => { assert!(complete, "C10:truncated_block_is_an_error_not_a_block"); core::mem::forget(b); }
@@ -166,7 +175,7 @@ fn c10_read_truncated() {
 #[kani::stub(<bitcoin::hashes::sha256::HashEngine as bitcoin::hashes::HashEngine>::input, ghost::stub_engine_input)]
 #[kani::stub(<bitcoin::hashes::sha256d::Hash as bitcoin::hashes::Hash>::from_engine, ghost::stub_sha256d_fin)]
 fn c10_read_missing() {
-    unsafe { gfs::EXISTS[4] = false; }
+    unsafe { gfs::EXISTS.v[4] = false; }
     let coin = CoinType { name: String::new(), magic: 0, version_id: 0x00, genesis_hash: bitcoin::hashes::sha256d::Hash::from_byte_array([0; 32]), aux_pow_activation_version: None, default_folder: PathBuf::new() };
     let mut bf = BlkFile::new(PathBuf::from("4"), None);
     match bf.read_block(8, &coin) {
